@@ -42,21 +42,25 @@ class LogPaxosWorld(NetWorld):
     max_hb: heartbeat timer firings
     bounded: timers fire only when no message is in flight (delays bounded below the heartbeat period)
     live: evaluate the liveness clause at quiescence (needs bounded, single starter)
+    drop: (message type, src, dst) triples that are always lost
+    fifo: message types delivered in slot order per directed link (only the other types are reordered)
+    timer_nodes: only these nodes' heartbeat timers fire inside the horizon (None: all)
     establish: node indices that start() BEFORE the search begins, every message delivered in FIFO order until
                quiet (non-initial start state "x is the established leader"); counts towards max_starts
     """
 
     def __init__(self, kind="multi", n=3, q1=None, q2=None, presubmit=((0, "c1"),), starters=(0,),
                  max_starts=1, starts_each=1, late_cmds=(), late_to=None, forward=False, max_hb=0,
-                 bounded=False, live=False, cut=(), max_moves=None, establish=()):
+                 bounded=False, live=False, cut=(), max_moves=None, establish=(), fifo=(), timer_nodes=None, drop=()):
         super().__init__()
         self.p = dict(kind=kind, n=n, q1=q1, q2=q2, presubmit=tuple(tuple(x) for x in presubmit),
                       starters=tuple(starters), max_starts=max_starts, starts_each=starts_each,
                       late_cmds=tuple(late_cmds), late_to=late_to, forward=forward, max_hb=max_hb,
                       bounded=bounded, live=live, cut=tuple(tuple(c) for c in cut), max_moves=max_moves,
-                      establish=tuple(establish))
+                      establish=tuple(establish), fifo=tuple(fifo), drop=tuple(tuple(d) for d in drop),
+                      timer_nodes=None if timer_nodes is None else tuple(timer_nodes))
         self.proto = "MultiPaxos" if kind == "multi" else "FlexiblePaxos"
-        assert not (live and (cut or not bounded or max_starts != 1)), "liveness premise: fault-free, bounded, one leader"
+        assert not (live and (cut or drop or not bounded or max_starts != 1)), "liveness premise: fault-free, bounded, one leader"
         nodes = []
         for i in range(n):
             if kind == "multi":
@@ -117,7 +121,21 @@ class LogPaxosWorld(NetWorld):
 
     # -- moves ----------------------------------------------------------
     def deliverable(self, m):
-        return (m[1]["source"], m[1]["destination"]) not in self.p["cut"]
+        if (m[1]["source"], m[1]["destination"]) in self.p["cut"]:
+            return False
+        if (m[0], m[1]["source"], m[1]["destination"]) in self.p["drop"]:
+            return False
+        if m[0] in self.p["fifo"]:
+            slot = m[1].get("slot", 0)
+            for o in self.msgs:
+                if (o[0] == m[0] and o[1]["source"] == m[1]["source"] and o[1]["destination"] == m[1]["destination"]
+                        and o[1].get("slot", 0) < slot):
+                    return False
+        return True
+
+    def live_timers(self):
+        tn = self.p["timer_nodes"]
+        return [(i, t) for i, t in super().live_timers() if tn is None or t[1].target.name in tn]
 
     def timers_enabled(self):
         if self.cnt("timer") >= self.p["max_hb"]:
@@ -358,9 +376,24 @@ class LogPaxosWorld(NetWorld):
             return []
         if self.client_moves():
             return []
+        out = []
+        # leader side needs no heartbeat: once every message has been delivered on a fault-free network, the
+        # established leader has decided and applied every submitted command and resolved its submit() futures
+        for nd in self.nodes:
+            if nd.is_leader and ("lead-live", nd.name) not in self.flags:
+                applied = self.sms[nd.name].applied
+                missing = [c for c in self.submitted if c not in applied]
+                pending = [c for n_, c, f in self.futures if n_ == nd.name and not f.is_resolved]
+                if missing or pending:
+                    self.flags.add(("lead-live", nd.name))
+                    out.append((f"{self.proto}/liveness/leader-quiescent-undecided",
+                                f"fault-free run, nothing in flight: leader {nd.name} has applied {applied} "
+                                f"(commit_index={nd.log.commit_index}) of submitted {self.submitted}; "
+                                f"unresolved futures {pending}"))
+        if out:
+            return out
         if self.live_timers() and self.hb_since < 2:
             return []  # heartbeats can still come (or the heartbeat budget cut the run: inconclusive)
-        out = []
         for nd in self.nodes:
             applied = self.sms[nd.name].applied
             missing = [c for c in self.submitted if c not in applied]
